@@ -6,5 +6,5 @@ CONSTANTS
   MaxKeys = 3
   Alpha = {0, 1, 2}
   MaxM = 6
-INVARIANTS FirstDiffOK CountOK ShardIsOK
+INVARIANTS FirstDiffOK CountOK ShardIsOK LCPFormsAgree
 CHECK_DEADLOCK FALSE
